@@ -22,25 +22,27 @@ META = dict(
                 'server\'s current record (l1_coherent); header, store and fetch frames carry value, deadline and trigger set unchanged exactly '
                 'when the key is non-empty and trigger names are non-empty and NUL-free (codec round trips, with refutation witnesses for the '
                 'empty name, the empty key and names containing NUL = known finding); server_of k < n, a key is only ever stored on server_of n k, '
-                'and the hash step regenerated from src/tcp_connector.cpp equals the model leaf for every state and byte. Deepening: the uint32 '
-                'length-sum check of session::store is exact without wrap-around and refuted with it (store_length_check_*; finding '
-                'store-length-sum-wraps); across cache server restarts a fetch is current or the node\'s own L1 record with a colliding generation '
-                '(fetch_across_restarts_*; nodes without L1 unaffected; restart harmless when no L1 holds a key of that server); messenger::transmit '
-                'over any schedule of short transfers is the atomic RPC, and under failures anywhere it returns the genuine answer, `error` or '
-                'throws (transmit_*; finding retry-sends-overwritten-header); with servers down a fetch that returns is current, failed calls '
-                'change no server (nstep theorems); different server list orders disagree on some key and a reversed list refutes the property '
-                '(assumption shown necessary); field sizes/adjacency of tcp_operation_header from the source. The model is run '
-                'against the real client/server code on the same histories (also with every readv/writev cut into 1..n byte transfers and with '
+                'and the hash step regenerated from src/tcp_connector.cpp equals the model leaf for every state and byte. The length check of '
+                'session::store is exact and complete for every frame (store_length_check_exact/_complete; a frame whose sum exceeds its payload is '
+                'refused whatever the sum is modulo 2^32); across cache server restarts a fetch is current or the node\'s own L1 record with a colliding '
+                'generation (fetch_across_restarts_*; nodes without L1 unaffected; restart harmless when no L1 holds a key of that server); messenger::transmit '
+                'over any schedule of short transfers is the atomic RPC of the world model, and whole histories executed over schedules chosen per call by an '
+                'adversary are the atomic histories when every frame fits the 32-bit header fields (history_over_any_transfer_schedules_is_the_atomic_history); its second attempt sends exactly the original request; under '
+                'failures anywhere it returns the genuine answer to a first or second execution or throws, and one failure with a working reconnect is '
+                'masked (transmit_*, retry_sends_exactly_the_original_request, one_failure_and_a_working_reconnect_are_masked); with servers down a fetch '
+                'that returns is current, failed calls change no server (nstep theorems); different server list orders disagree on some key and a reversed '
+                'list refutes the property (assumption shown necessary); field sizes/adjacency of tcp_operation_header from the source. The model is run '
+                'against the real client/server code on the same histories (also with every readv/writev cut into 1..n byte transfers, with connections '
+                'failing in mid-answer and with '
                 'servers going down and up), raw frames, client-codec probes and mid-answer connection failures.'),
     level_note=('Trusted: Coq kernel + vm_compute; clang AST + the hash-step translation (cxx2v expression translator); extraction; '
-                'the C++ around the modelled functions (booster::aio sockets, messenger::transmit without reconnects, threads) is '
+                'the C++ around the modelled functions (booster::aio reactor, threads) is '
                 'exercised by the harness, not modelled; mem_cache is modelled abstractly with limit 0 (no LRU eviction; L1 eviction '
-                'is an explicit Evict operation); generation counter is unbounded in the model (uint64 in the code); for frames whose '
-                'uint32 length sum wraps the code has undefined behaviour (reads outside the frame): the model proves the check passes, the '
-                'replay shows the crash. Transfer schedules and failures are modelled for one RPC against one server cache (NetDefs.transmit), not woven '
-                'into the world histories; the first-use connect of a node (all servers must be up) is not modelled. Known findings: trigger names (and keys, '
-                'as triggers) that are empty or contain NUL are not carried by the wire format; store-length-sum-wraps (hostile peer); '
-                'retry-sends-overwritten-header (connection failure in mid-answer).'),
+                'is an explicit Evict operation); generation counter is unbounded in the model (uint64 in the code). Transfer schedules and failures '
+                'are modelled for one RPC against one server cache (NetDefs.transmit) and lifted to the world\'s rpc for schedules without failures; the '
+                'first-use connect of a node (all servers must be up) is not modelled. Known finding: trigger names (and keys, as triggers) that are empty '
+                'or contain NUL are not carried by the wire format. Repaired in /repo and now demanded by the oracle: store frames whose length sum wraps '
+                'are refused (b527961), the retry of messenger::transmit sends the request again (d350cd9).'),
 )
 
 GEN = {}   # the hash loop body needs its own small driver around cxx2v (state variable h): see gen_hash()
@@ -314,7 +316,7 @@ def gen_handshake_history(rng):
 
 
 def gen_raw_frame(rng, keys, trigs, now):
-    """a frame as a foreign peer might send it; never one whose uint32 length sum wraps (UB in the server)"""
+    """a frame as a foreign peer might send it, also store frames whose length sum wraps modulo 2^32 (refused since /repo b527961)"""
     k = rng.choice(keys) or b'k'
     r = rng.random()
     if r < 0.45:
@@ -334,10 +336,21 @@ def gen_raw_frame(rng, keys, trigs, now):
             kw['dlen'] = len(v) + rng.choice([1, 2, 2 ** 16])
         elif y < 0.4:
             kw['tl'] = len(region) + rng.choice([1, 5])
+        elif y < 0.5:
+            # the three lengths add up to the frame size only modulo 2^32 (the frame that crashed the server before b527961 and its kin)
+            size = len(k) + len(v) + len(region)
+            w = rng.choice('AABCD')
+            if w == 'A':
+                kw = dict(kl=len(k), dlen=2 ** 32 - 1, tl=size - len(k) + 1)
+            elif w == 'B':
+                kw = dict(kl=2 ** 31 + len(k), dlen=2 ** 31 + len(v), tl=len(region))
+            elif w == 'C':
+                kw = dict(kl=len(k), dlen=size - len(k) + 1, tl=2 ** 32 - 1)
+            elif (size + 2 ** 33) % 3 == 0:
+                kw = dict(kl=(size + 2 ** 33) // 3, dlen=(size + 2 ** 33) // 3, tl=(size + 2 ** 33) // 3)
+            else:
+                kw = dict(kl=1, dlen=2 ** 32 - 1, tl=size)
         h, p = store_frame(k, v, region, now + rng.choice([0, 5, -1]), **kw)
-        kl, dlen, tl = struct.unpack('<III', h[24:36])
-        if (kl + dlen + tl) % 2 ** 32 == len(p) and kl + dlen + tl != len(p):
-            h, p = store_frame(k, v, region, now + 5)
         return h, p
     if r < 0.75:
         flags = rng.choice([0, 1, 2, 3, 3, 0xfffffffc, 0x80000001])
@@ -614,9 +627,7 @@ def oracle_history(c, out):
             if restarted and ((cl is None) != (sv is None) or (cl is not None and (cl['v'] != sv['v'] or cl['dl'] != sv['dl']))):
                 return ('stale-after-server-restart', 'after a cache server restart (generation counter back at 0) the client answered %s '
                         'but the server holds %s for key %s' % (cl and cl['v'][:40].hex(), sv and sv['v'][:40].hex(), k.hex()))
-            if injected >= 1 and cl is None:
-                pass             # after a connection failure in mid-answer a miss is allowed (never a wrong value: checked below when found)
-            elif (cl is None) != (sv is None):
+            if (cl is None) != (sv is None):   # (also right after an injected connection failure: the retry must deliver the answer)
                 return ('fetch-not-current', 'client %s but server %s for key %s' % (
                     'found' if cl else 'not found', 'holds a value' if sv else 'holds nothing', k.hex()))
             if cl is not None:
@@ -693,8 +704,8 @@ def cut_probe_overread(c):
 
 
 def oracle_cut_probe(c, out):
-    """the connection failed after `cut` bytes of the answer. Whatever happens, the caller must get the genuine answer, a miss or an
-    exception - never anything else; and the second attempt must send the request again, not something else."""
+    """the connection failed after `cut` bytes of the answer and the reconnect works: the second attempt must send the request
+    again, byte for byte, and the caller must get the genuine answer (one failure is masked)."""
     o = out.split()
     kind = c[2]
     cut = int(c[-3])
@@ -713,11 +724,11 @@ def oracle_cut_probe(c, out):
             g3, dl, dlen, tl = struct.unpack('<QqII', rh[16:40])
             ts = walk(rp[dlen:dlen + tl]) if tags else set()
             genuine = 'r=1.%s.%d.%s.%d' % (hexs(rp[:dlen]), dl, '_' if not ts else ','.join(hexs(t) for t in sorted(ts)), g3)
-        if res not in (genuine, 'r=0', 'r=!'):
-            return ('fetch-after-connection-failure', 'after a connection failure in the middle of the answer fetch returned %s; allowed: '
-                    'the genuine answer %s, a miss, an exception' % (res[:100], genuine[:100]))
-        if cut == 0 and res != genuine:
-            return ('retry-lost', 'the connection was closed before any byte of the answer: the retry must deliver the answer, got ' + res[:60])
+        if res != genuine:
+            return ('fetch-after-connection-failure', 'after ONE connection failure (%d bytes into the answer) and a reconnect that worked, fetch '
+                    'returned %s instead of the genuine answer %s' % (cut, res[:100], genuine[:100]))
+    elif res != 'r':
+        return ('store-after-connection-failure', 'store threw although the reconnect worked: ' + res[:60])
     if o[2] == 'NO-RETRY':
         return None if res == 'r=!' else ('bad-output', 'no second attempt but ' + res[:60])
     f1 = o[1].split('.')
@@ -819,18 +830,19 @@ def oracle_concurrent(c, out):
 
 def canon_case(case, out):
     """concurrent runs are not reproducible: they are judged by the oracle alone"""
-    if case.startswith('H ') and wrapping_store_frames(case.split()):
-        return 'H UB-WRAP'       # undefined behaviour in the server (reads outside the frame): the model driver answers the same token
     return 'M' if case.startswith('M ') and out.startswith('M ') and 'BAD-CASE' not in out and 'FAILED' not in out and 'EXCEPTION' not in out else out
 
 
 def wrapping_store_frames(c):
-    """raw store frames of a foreign peer whose uint32 length sum wraps: key_len+data_len+triggers_len != size as integers but
-    equal modulo 2^32 (session::store accepts them and then reads outside the frame). Never generated; docs/C10_wrap.case."""
+    """raw store frames of a foreign peer whose length sum wraps: key_len+data_len+triggers_len != size as integers but equal modulo
+    2^32. Before /repo b527961 session::store accepted them and read outside the frame; they must be answered `error`."""
     res = []
+    down = set()
     for o in c[3:]:
         f = o.split(':')
-        if f[0] == 'W' and len(f) == 4 and len(f[2]) == 80:
+        if f[0] in ('D', 'U'):
+            (down.add if f[0] == 'D' else down.discard)(f[1])
+        if f[0] == 'W' and len(f) == 4 and len(f[2]) == 80 and f[1] not in down:      # (a frame to a server that is down is never sent)
             h = unhex(f[2])
             opc, size = struct.unpack('<II', h[:8])
             kl, dlen, tl = struct.unpack('<III', h[24:36])
@@ -846,20 +858,12 @@ def oracle(case, out):
     if c[0] == 'H':
         wr = wrapping_store_frames(c)
         if wr:
-            # the frame must be refused (`error`); anything else - an accepted store (`done`), a crash of the server - is the defect
+            # the frame must be refused (`error`) and the server must live on; anything else is a regression of b527961
             toks = out.split()[1:]
             refused = [t for t in toks if t.startswith('w=') and unhex(t[2:].split('.')[0])[:4] == b'\x05\0\0\0']
             if out.startswith('<crash') or 'FAILED' in out or len(refused) < len(wr):
                 return ('store-length-sum-wraps', 'a store frame with key_len=%d data_len=%d triggers_len=%d size=%d (sum wraps in uint32) was not '
                         'refused by tcp_cache_service::session::store: %s' % (wr[0] + (out[:200],)))
-    if c[0] == 'H' and out.startswith('<crash') and any(o.startswith('Z:') and int(o[2:]) >= 5 for o in c[3:]) \
-            and ('read_iovec' in out or 'writev' in out or 'AddressSanitizer' in out):
-        return ('retry-sends-overwritten-header', 'a call whose connection failed 5 or more bytes into the answer header (Z:n): the second attempt of '
-                'messenger::transmit sends the answer\'s size worth of bytes from behind the request string and the sanitizer stopped the '
-                'process: ' + out[:300])
-    if c[0] == 'P' and c[1] == 'Z' and out.startswith('<crash') and int(c[-3]) >= 5 and cut_probe_overread(c)[0] > 0:
-        return ('retry-sends-overwritten-header', 'the second attempt of messenger::transmit sends %d bytes beyond the request string (size field '
-                'overwritten by the answer header) and the process died: %s' % (cut_probe_overread(c)[0], out[:300]))
     if out.startswith('<crash') or out.startswith('EXCEPTION') or 'FAILED' in out or 'BAD-CASE' in out:
         return ('crash-or-io', 'harness could not complete the case: ' + out[:300])
     if c[0] == 'H':
@@ -926,10 +930,6 @@ def asan_pass(ctx, cases, volume):
     for c, o in zip(sub, out):
         if o.startswith('<crash'):
             bad += 1
-            r = oracle(c, o)
-            if r and r[0] in ('store-length-sum-wraps', 'retry-sends-overwritten-header'):
-                ctx.fail(r[0], r[1] + '\n  (sanitizer build) case: %s' % c[:400], c)
-                continue
             ctx.fail('sanitizer-abort', 'the harness built with -fsanitize=address,undefined died on this case: ' + o[:1400], c)
             continue
         r = oracle(c, o)
@@ -966,12 +966,13 @@ def run(ctx):
         '(tied by short-transfer histories through interposed readv/writev, by server-down histories and by mid-answer failure probes)']
     ctx.assumptions = [
         'every client is configured with the same server list in the same order',
-        'each RPC is atomic on the server (one request of a connection at a time; mem_cache operations are serialised by its lock)',
+        'each RPC is atomic on the server (one request of a connection at a time; mem_cache operations are serialised by its lock); that short transfers '
+        'do not break this is proved per RPC and for whole histories (side condition: all frames fit their 32-bit fields)',
         'no server restart for the coherence theorems (a restart resets the generation counter; section 6 of Props.v states what holds across restarts)',
         'answers shorter than 2^32 bytes and generations below 2^64 (hdr_ok of the answer header) for the transport theorems',
         'fewer than 2^64 stores per server (generation counter does not wrap) and all frame length fields below 2^32',
         'all nodes share one clock',
-        'frames come from tcp_cache clients or from peers whose length fields do not wrap in uint32']
+        'raw frames of foreign peers have a payload of exactly the size their header announces (the harness sends such frames only)']
     ctx.notes += [
         'known finding name-with-nul-or-empty-not-carried: the wire format cannot carry an empty key, an empty trigger name or a name '
         'containing NUL (refused store = older value stays current; split name = raising it invalidates nothing); the theorems state the '
@@ -980,11 +981,10 @@ def run(ctx):
         'copy\'s (over-invalidation only); the oracle demands equality for nodes without L1 and superset for nodes with L1',
         'observation (outside the quantifier): a cache server restart resets its generation counter, after which an L1 record of an older '
         'incarnation can be confirmed as up to date; the theorems assume no restart',
-        'finding store-length-sum-wraps (outside the quantifier: hostile network peer): key_len+data_len+triggers_len is checked in uint32; a 41-byte '
-        'frame crashes the cache server (docs/C10_wrap.case, docs/C10_fix_2.diff); never generated',
-        'finding retry-sends-overwritten-header (outside the quantifier: connection failure in mid-answer): the single retry of messenger::transmit sends '
-        'the header object as the failed read left it; never a wrong value (proved), but up to the answer size bytes beyond the request string are sent '
-        '(docs/C10_fix_3.diff); generated as probe P Z',
+        'repaired (/repo b527961, was finding store-length-sum-wraps): store frames of a foreign peer whose three lengths add up to the frame size only '
+        'modulo 2^32 are generated and must be answered `error` with the server alive (corpus/C10/wrap_regress.case is the frame that crashed it)',
+        'repaired (/repo d350cd9, was finding retry-sends-overwritten-header): after a connection failure in mid-answer the second attempt of '
+        'messenger::transmit must send the request again byte for byte and deliver the genuine answer (probes P Z, histories with Z:n)',
         'observation: nodes configured with different orders of the server list do not see each other\'s stores (assumption shown necessary: '
         'reversed_server_order_refutes_the_property, docs/C10_order.case)',
         'the harness closes all its TCP sockets with RST (SO_LINGER 0 via an interposed socket()) to keep loopback TIME_WAIT entries low']
